@@ -2,7 +2,7 @@
 
 use std::cmp::Ordering;
 use std::fs::{File, OpenOptions};
-use std::io::{BufReader, BufWriter, ErrorKind, Read, Seek, SeekFrom, Write as IoWrite};
+use std::io::{BufReader, BufWriter, ErrorKind, Read, Seek, Write as IoWrite};
 use std::os::fd::{AsRawFd, RawFd};
 use std::path::Path;
 use std::sync::Arc;
@@ -19,7 +19,7 @@ use super::{
     TABLE_FULL_SIZE, check_key_len, check_table_size, check_value_len,
     corruption_crc_checksum_failed, corruption_entry_size_exceeds_max, corruption_fsync_failed,
     corruption_header_size_exceeds_max, corruption_invalid_discriminant, corruption_log_poisoned,
-    corruption_shared_not_zero, corruption_true_up_exceeds_header_max,
+    corruption_nonzero_padding, corruption_shared_not_zero, corruption_true_up_exceeds_header_max,
     corruption_truncation_no_second_header, empty_batch, error_with_path, io_result,
     io_result_with_context, logic_error_buf_writer_into_inner_failed, system_error, table_full,
     unpack_key_value_entry_prototk, unpack_log_header,
@@ -793,7 +793,19 @@ impl<R: Read + Seek> LogIterator<R> {
         if trued_up - offset > HEADER_MAX_SIZE {
             return Err(corruption_true_up_exceeds_header_max(offset, trued_up));
         }
-        io_result(self.input.seek(SeekFrom::Start(trued_up)))?;
+        // The writer pads with zeros, and nothing covers the byte that said "this is padding":
+        // read what is skipped rather than seek over it.  A log that ends inside its padding
+        // simply ends.
+        let mut padding = Vec::with_capacity(HEADER_MAX_SIZE as usize);
+        io_result(
+            self.input
+                .by_ref()
+                .take(trued_up - offset)
+                .read_to_end(&mut padding),
+        )?;
+        if padding.iter().any(|b| *b != 0) {
+            return Err(corruption_nonzero_padding(offset, trued_up));
+        }
         Ok(())
     }
 }
